@@ -86,6 +86,23 @@ package directconnection
 //@   ensures old(inTyp)[ifaceval(self)] == 0 ==> inTyp[ifaceval(self)] == typeid(msg) && inVal[ifaceval(self)] == ifaceval(msg)
 //@   assigns canDlv, dlvN, dlvTyp, dlvVal, dlvTo, inTyp, inVal
 
+// SetConnection: a port accepts one connection, once (a second SetConnection panics).
+//@ iface messaging.Port.SetConnection(conn)
+//@   trusted
+//@   panics connOf[ifaceval(self)] != 0
+//@   ensures connOf == upd(old(connOf), ifaceval(self), ifaceval(conn))
+//@   assigns connOf
+// NotifyAvailable: forwards the wake-up to the owner component (outside the connection): only counted here.
+//@ iface messaging.Port.NotifyAvailable()
+//@   trusted
+//@   ensures availCnt == upd(old(availCnt), ifaceval(self), old(availCnt)[ifaceval(self)] + 1)
+//@   assigns availCnt
+// modeling.MiddlewareHolder.Middlewares returns a fresh copy of the middleware list (trusted: function of package modeling).
+//@ ext modeling.(*MiddlewareHolder).Middlewares(holder)
+//@   trusted
+//@   ensures len(result) == len(holder.middlewares) && fresh(result) && (forall i in 0..len(result) :: result[i] == holder.middlewares[i])
+//@   assigns nothing
+
 // ---- the port table ----
 // The index map points into the slice, and two names never share a slot (names distinct).
 //@ pred tableWF(p) = p.portMap != nil && (forall nm int :: (nm in p.portMap) ==> 0 <= p.portMap[nm] && p.portMap[nm] < len(p.ports)) && (forall n1 int, n2 int :: (n1 in p.portMap) && (n2 in p.portMap) && n1 != n2 ==> p.portMap[n1] != p.portMap[n2])
@@ -95,8 +112,9 @@ package directconnection
 //@ fn (*ports).getPortIndex
 //@   property C10
 //@   panics index < 0 || index >= len(p.ports)
+//@   witness widx int = index
 //@   label C10.getindex
-//@   ensures result == p.ports[index]
+//@   ensures result == p.ports[index] && widx == index
 //@   assigns nothing
 //@ fn (*ports).len
 //@   property C10
@@ -116,6 +134,55 @@ package directconnection
 //@   ensures result == p.ports[p.portMap[name]]
 //@   assigns nothing
 
+// addPort: appends the port and registers it under the name its AsRemote() returns.
+// NOT EXPRESSIBLE with the reused contract `iface messaging.Port.AsRemote()` of mem/rob/zz_contracts_C21_verif.go (no
+// postcondition: every call returns an unconstrained name): "portMap[name of port] == its index" (DESIGN: portsWF). It would
+// need `ensures result == portName(self)` for an uninterpreted portName there. What follows is the part that does not name
+// the key: no name is lost, every new or changed entry designates the appended port, at most one entry is new or changed.
+//@ pred entryKept(p, nm) = old(nm in p.portMap) && (nm in p.portMap) && p.portMap[nm] == old(p.portMap[nm])
+//@ pred tableAppended(p, port) = len(p.ports) == old(len(p.ports)) + 1 && p.ports[old(len(p.ports))] == port && (forall i in 0..old(len(p.ports)) :: p.ports[i] == old(p.ports[i]))
+//@ pred tableRegistered(p) = (forall nm int :: old(nm in p.portMap) ==> (nm in p.portMap)) && (forall nm int :: (nm in p.portMap) && !entryKept(p, nm) ==> p.portMap[nm] == old(len(p.ports))) && (forall n1 int, n2 int :: (n1 in p.portMap) && (n2 in p.portMap) && !entryKept(p, n1) && !entryKept(p, n2) ==> n1 == n2)
+//@ fn (*ports).addPort
+//@   property C10
+//@   requires tableWF(p)
+//@   label C10.add.slice
+//@   ensures tableAppended(p, port)
+//@   label C10.add.map
+//@   ensures tableRegistered(p)
+//@   label C10.add.wf
+//@   ensures tableWF(p)
+//@   assigns p.ports, elems(p.ports), elems(p.portMap)
+
+// ---- the component: its first middleware is the forwarding middleware that owns the table ----
+//@ pred compWF(c) = c.Component != nil && c.Component.TickingComponent != nil && len(c.Component.MiddlewareHolder.middlewares) > 0 && hastype(c.Component.MiddlewareHolder.middlewares[0], "*middleware") && as(c.Component.MiddlewareHolder.middlewares[0], "*middleware") != nil
+//@ func mwOf(c) = as(c.Component.MiddlewareHolder.middlewares[0], "*middleware")
+// the same three facts about the table of middleware m (a struct-valued argument would be evaluated before old() applies)
+//@ pred mEntryKept(m, nm) = old(nm in m.ports.portMap) && (nm in m.ports.portMap) && m.ports.portMap[nm] == old(m.ports.portMap[nm])
+//@ pred mTableAppended(m, port) = len(m.ports.ports) == old(len(m.ports.ports)) + 1 && m.ports.ports[old(len(m.ports.ports))] == port && (forall i in 0..old(len(m.ports.ports)) :: m.ports.ports[i] == old(m.ports.ports[i]))
+//@ pred mTableRegistered(m) = (forall nm int :: old(nm in m.ports.portMap) ==> (nm in m.ports.portMap)) && (forall nm int :: (nm in m.ports.portMap) && !mEntryKept(m, nm) ==> m.ports.portMap[nm] == old(len(m.ports.ports))) && (forall n1 int, n2 int :: (n1 in m.ports.portMap) && (n2 in m.ports.portMap) && !mEntryKept(m, n1) && !mEntryKept(m, n2) ==> n1 == n2)
+//@ fn (*Comp).mw
+//@   property C10
+//@   requires c.Component != nil
+//@   panics !(len(c.Component.MiddlewareHolder.middlewares) > 0 && hastype(c.Component.MiddlewareHolder.middlewares[0], "*middleware"))
+//@   label C10.mw
+//@   ensures result == mwOf(c)
+//@   assigns nothing
+
+// PlugIn: the port joins the table (as addPort) and is told its connection; a port that already has a connection panics.
+//@ fn (*Comp).PlugIn
+//@   property C10
+//@   requires compWF(c) && tableWF(mwOf(c).ports)
+//@   panics connOf[ifaceval(port)] != 0
+//@   label C10.plugin.slice
+//@   ensures mTableAppended(mwOf(c), port)
+//@   label C10.plugin.map
+//@   ensures mTableRegistered(mwOf(c))
+//@   label C10.plugin.wf
+//@   ensures tableWF(mwOf(c).ports) && compWF(c)
+//@   label C10.plugin.conn
+//@   ensures connOf == upd(old(connOf), ifaceval(port), ref(c))
+//@   assigns mwOf(c).ports.ports, elems(mwOf(c).ports.ports), elems(mwOf(c).ports.portMap), connOf
+
 // ---- forwardMany(port): forwards a prefix of port's outgoing queue, stops at the first destination that cannot accept ----
 // k = number of messages forwarded by this call
 //@ func fwdK(port) = outRetr[ifaceval(port)] - old(outRetr)[ifaceval(port)]
@@ -130,14 +197,20 @@ package directconnection
 //@   property C10
 //@   requires tableWF(m.ports)
 //@   requires routable(m, ifaceval(port))
+// names for the caller (Tick): the port served, and where its log segment / queue run start
+//@   witness wport int = ifaceval(port)
+//@   witness wdl0 int = old(dlvN)
+//@   witness wr0 int = old(outRetr)[ifaceval(port)]
+//@   label C10.fwd.names
+//@   ensures wport == ifaceval(port) && wdl0 == old(dlvN) && wr0 == old(outRetr)[ifaceval(port)]
 //@   label C10.fwd.k
-//@   ensures 0 <= fwdK(port) && fwdK(port) <= old(numOut(ifaceval(port)))
+//@   ensures 0 <= fwdK(port) && fwdK(port) <= old(numOut(ifaceval(port))) && 0 <= old(outRetr)[ifaceval(port)]
 //@   label C10.fwd.retrieved
 //@   ensures onlyRetrieved(port)
 //@   label C10.fwd.count
 //@   ensures dlvN == old(dlvN) + fwdK(port)
 //@   label C10.fwd.delivered
-//@   ensures forall i in 0..fwdK(port) :: deliveredAs(m, old(dlvN) + i, ifaceval(port), old(outRetr)[ifaceval(port)] + i)
+//@   ensures forall n int :: old(dlvN) <= n && n < dlvN ==> deliveredAs(m, n, ifaceval(port), old(outRetr)[ifaceval(port)] + n - old(dlvN))
 //@   label C10.fwd.logkept
 //@   ensures logPrefixKept()
 //@   label C10.fwd.backpressure
@@ -154,7 +227,7 @@ package directconnection
 //@   loop 0: invariant tableWF(m.ports) && routable(m, ifaceval(port))
 //@   loop 0: invariant 0 <= fwdK(port) && onlyRetrieved(port)
 //@   loop 0: invariant dlvN == old(dlvN) + fwdK(port)
-//@   loop 0: invariant forall i in 0..fwdK(port) :: deliveredAs(m, old(dlvN) + i, ifaceval(port), old(outRetr)[ifaceval(port)] + i)
+//@   loop 0: invariant forall n int :: old(dlvN) <= n && n < dlvN ==> deliveredAs(m, n, ifaceval(port), old(outRetr)[ifaceval(port)] + n - old(dlvN))
 //@   loop 0: invariant logPrefixKept()
 //@   loop 0: invariant madeProgress <==> fwdK(port) > 0
 //@   loop 0: invariant forall q int :: !old(canDlv)[q] ==> !canDlv[q]
@@ -174,8 +247,16 @@ package directconnection
 // log entry n is queue entry idx[n] of port src[n], retrieved during this call
 //@ pred tickDelivered(m, src, idx) = forall n int :: old(dlvN) <= n && n < dlvN ==> dlvTyp[n] == sentTyp[src[n]][idx[n]] && dlvVal[n] == sentVal[src[n]][idx[n]] && dlvTo[n] == ifaceval(byName(m.ports, dstOf(sentMsg(src[n], idx[n])))) && old(outRetr)[src[n]] <= idx[n] && idx[n] < outRetr[src[n]]
 //@ pred tickInOrder(src, idx) = forall n1 int, n2 int :: old(dlvN) <= n1 && n1 < n2 && n2 < dlvN && src[n1] == src[n2] ==> idx[n1] < idx[n2]
-//@ pred tickNoDrop(src, idx, lg) = forall p int, j int :: old(outRetr)[p] <= j && j < outRetr[p] ==> old(dlvN) <= lg[p][j] && lg[p][j] < dlvN && src[lg[p][j]] == p && idx[lg[p][j]] == j
+// lg[pair(p, j)] = log index at which queue entry j of port p was delivered (inverse of src/idx). A map keyed by the pair
+// (p, j) is flattened with pair(p, j) = p * 2^64 + j, injective for 0 <= j < 2^64 (counters of Go calls).
+//@ const TWO64 = 18446744073709551616
+//@ func pair(p, j) = p * TWO64 + j
+//@ pred tickNoDrop(src, idx, lg) = forall p int, j int :: old(outRetr)[p] <= j && j < outRetr[p] && 0 <= j && j < TWO64 ==> old(dlvN) <= lg[pair(p, j)] && lg[pair(p, j)] < dlvN && src[lg[pair(p, j)]] == p && idx[lg[pair(p, j)]] == j
 //@ pred tickOnlyPlugged(m, slot) = forall p int :: outRetr[p] != old(outRetr)[p] ==> 0 <= slot[p] && slot[p] < len(m.ports.ports) && ifaceval(m.ports.ports[slot[p]]) == p
+// one loop step's update of the witness maps: the step served port P, its log segment starts at d0, its queue run at r0
+//@ func nsrc(g, d0, P) = mapof(j, j >= d0 ? P : g[j])
+//@ func nidx(g, d0, r0) = mapof(j, j >= d0 ? r0 + j - d0 : g[j])
+//@ func nlog(g, d0, P, r0, r1) = mapof(x, pair(P, r0) <= x && x < pair(P, r1) && x < pair(P + 1, 0) ? d0 + x - pair(P, r0) : g[x])
 //@ pred retrGrows() = forall p int :: old(outRetr)[p] <= outRetr[p]
 //@ pred fullStaysFull() = forall q int :: !old(canDlv)[q] ==> !canDlv[q]
 
@@ -185,12 +266,16 @@ package directconnection
 //@   requires m.comp != nil && tableWF(m.ports) && cursorOK(m)
 //@   requires allRoutable(m)
 //@   panics any
-//@   witness src map = gsrc
-//@   witness idx map = gidx
-//@   witness lg map2 = glog
-//@   witness slot map = gslot
+// the loop leaves through the bottom of its last step (rotated range loop), where the ghost loop variables still have
+// their loop-head values: the witnesses complete that last step from the names published by its two calls
+//@   witness src map = nsrc(gsrc, forwardMany_wdl0, forwardMany_wport)
+//@   witness idx map = nidx(gidx, forwardMany_wdl0, forwardMany_wr0)
+//@   witness lg map = nlog(glog, forwardMany_wdl0, forwardMany_wport, forwardMany_wr0, outRetr[forwardMany_wport])
+//@   witness slot map = upd(gslot, forwardMany_wport, getPortIndex_widx)
 //@   label C10.tick.cursor
 //@   ensures m.comp.State.NextPortID == rr(1, old(m.comp.State.NextPortID), len(m.ports.ports)) && cursorOK(m)
+//@   label C10.tick.progress
+//@   ensures result <==> dlvN > old(dlvN)
 //@   label C10.tick.delivered
 //@   ensures tickDelivered(m, src, idx)
 //@   label C10.tick.inorder
@@ -207,11 +292,11 @@ package directconnection
 //@   ensures tableWF(m.ports) && unchanged(m.ports.ports) && unchanged(m.ports.portMap)
 //@   assigns m.comp.State.NextPortID, outRetr, canSend, canDlv, dlvN, dlvTyp, dlvVal, dlvTo, inTyp, inVal
 //@   loop 0: ghost gsrc = mapof(j, 0)
-//@   loop 0: backedge gsrc = mapof(j, j >= athead(dlvN) ? ifaceval(port) : gsrc[j])
+//@   loop 0: backedge gsrc = nsrc(gsrc, athead(dlvN), ifaceval(port))
 //@   loop 0: ghost gidx = mapof(j, 0)
-//@   loop 0: backedge gidx = mapof(j, j >= athead(dlvN) ? athead(outRetr)[ifaceval(port)] + j - athead(dlvN) : gidx[j])
-//@   loop 0: ghost glog = sentVal
-//@   loop 0: backedge glog = upd(glog, ifaceval(port), mapof(j, j >= athead(outRetr)[ifaceval(port)] ? athead(dlvN) + j - athead(outRetr)[ifaceval(port)] : glog[ifaceval(port)][j]))
+//@   loop 0: backedge gidx = nidx(gidx, athead(dlvN), athead(outRetr)[ifaceval(port)])
+//@   loop 0: ghost glog = mapof(j, 0)
+//@   loop 0: backedge glog = nlog(glog, athead(dlvN), ifaceval(port), athead(outRetr)[ifaceval(port)], outRetr[ifaceval(port)])
 //@   loop 0: ghost gslot = mapof(j, 0)
 //@   loop 0: backedge gslot = upd(gslot, ifaceval(port), portID)
 //@   loop 0: invariant numPorts == len(m.ports.ports) && numPorts > 0 && state.NextPortID == old(m.comp.State.NextPortID)
@@ -222,3 +307,51 @@ package directconnection
 //@   loop 0: invariant tickInOrder(gsrc, gidx)
 //@   loop 0: invariant tickNoDrop(gsrc, gidx, glog)
 //@   loop 0: invariant tickOnlyPlugged(m, gslot)
+
+// ---- wake-ups: a sender that starts to fill an empty queue, or a receiver that regains room, makes the connection tick ----
+// Ghosts of /verif/contracts/modeling/zz_contracts_wake_verif.go (properties C09/C12), whose verified contract of
+// (*TickScheduler).TickNow is reused: sched[h][u] = ticks of handler h pending at instant u; now = current time.
+//@ ghost var sched map2
+//@ ghost var now int
+//@ ghost var lastSecondary bool
+//@ ghost var issued set
+//@ func tsOf(c) = c.Component.TickingComponent.TickScheduler
+//@ pred wakeWF(c) = c.Component != nil && c.Component.TickingComponent != nil && modeling.tsWF(tsOf(c)) && modeling.tsInv(tsOf(c))
+
+//@ fn (*Comp).NotifySend
+//@   property C10
+//@   requires wakeWF(c)
+// (unconditional "a tick is pending at or after now" is property C09's claim about TickNow; C10 only relies on what the
+// TickNow contract labels as guaranteed by the code: unless a tick was already recorded for exactly the current instant)
+//@   label C10.notifysend.tick
+//@   ensures !(old(tsOf(c).hasScheduledTick) && int(old(tsOf(c).nextTickTime)) == now) ==> sched[tsOf(c).handlerID][tsOf(c).nextTickTime] >= 1 && int(tsOf(c).nextTickTime) >= now
+//@   label C10.notifysend.wf
+//@   ensures wakeWF(c)
+//@   assigns sched, lastSecondary, tsOf(c).nextTickTime, tsOf(c).hasScheduledTick, issued, key("G|github.com/sarchlab/akita/v5/timing.idGenerator|"), key("G|github.com/sarchlab/akita/v5/timing.idGeneratorInstantiated|"), key("O|timing.sequentialIDGenerator|nextID"), key("O|timing.parallelIDGenerator|nextID")
+
+// NotifyAvailable(p): every plugged port other than p is told once that the connection can deliver again; then the
+// connection ticks. (Ports are compared as interface values; the ghost is keyed by the value part.)
+//@ pred mPortsDistinct(m) = forall i in 0..len(m.ports.ports) :: forall j in 0..len(m.ports.ports) :: i != j ==> ifaceval(m.ports.ports[i]) != ifaceval(m.ports.ports[j])
+//@ pred sameIdentity(m, p) = forall i in 0..len(m.ports.ports) :: ifaceval(m.ports.ports[i]) == ifaceval(p) ==> m.ports.ports[i] == p
+//@ fn (*Comp).NotifyAvailable
+//@   property C10
+//@   requires compWF(c) && wakeWF(c) && mPortsDistinct(mwOf(c)) && sameIdentity(mwOf(c), p)
+//@   witness slot map = gslot
+//@   label C10.notifyavail.others
+//@   ensures forall i in 0..len(mwOf(c).ports.ports) :: mwOf(c).ports.ports[i] != p ==> availCnt[ifaceval(mwOf(c).ports.ports[i])] == old(availCnt)[ifaceval(mwOf(c).ports.ports[i])] + 1
+//@   label C10.notifyavail.self
+//@   ensures availCnt[ifaceval(p)] == old(availCnt)[ifaceval(p)]
+//@   label C10.notifyavail.onlyplugged
+//@   ensures forall q int :: availCnt[q] != old(availCnt)[q] ==> 0 <= slot[q] && slot[q] < len(mwOf(c).ports.ports) && ifaceval(mwOf(c).ports.ports[slot[q]]) == q
+//@   label C10.notifyavail.tick
+//@   ensures !(old(tsOf(c).hasScheduledTick) && int(old(tsOf(c).nextTickTime)) == now) ==> sched[tsOf(c).handlerID][tsOf(c).nextTickTime] >= 1 && int(tsOf(c).nextTickTime) >= now
+//@   label C10.notifyavail.wf
+//@   ensures wakeWF(c) && compWF(c) && unchanged(mwOf(c).ports.ports)
+//@   assigns availCnt, sched, lastSecondary, tsOf(c).nextTickTime, tsOf(c).hasScheduledTick, issued, key("G|github.com/sarchlab/akita/v5/timing.idGenerator|"), key("G|github.com/sarchlab/akita/v5/timing.idGeneratorInstantiated|"), key("O|timing.sequentialIDGenerator|nextID"), key("O|timing.parallelIDGenerator|nextID")
+//@   loop 0: ghost gslot = mapof(j, 0)
+//@   loop 0: backedge gslot = upd(gslot, ifaceval(port), rangeindex)
+//@   loop 0: invariant -1 <= rangeindex && rangeindex < len(mwOf(c).ports.ports) && compWF(c) && wakeWF(c)
+//@   loop 0: invariant forall i in 0..rangeindex + 1 :: mwOf(c).ports.ports[i] != p ==> availCnt[ifaceval(mwOf(c).ports.ports[i])] == old(availCnt)[ifaceval(mwOf(c).ports.ports[i])] + 1
+//@   loop 0: invariant forall i in rangeindex + 1..len(mwOf(c).ports.ports) :: availCnt[ifaceval(mwOf(c).ports.ports[i])] == old(availCnt)[ifaceval(mwOf(c).ports.ports[i])]
+//@   loop 0: invariant availCnt[ifaceval(p)] == old(availCnt)[ifaceval(p)]
+//@   loop 0: invariant forall q int :: availCnt[q] != old(availCnt)[q] ==> 0 <= gslot[q] && gslot[q] <= rangeindex && ifaceval(mwOf(c).ports.ports[gslot[q]]) == q
